@@ -524,9 +524,13 @@ def bodyClear (st : St) (preserveLength : Bool) : St :=
 def backendIncomplete (st : St) : St :=
   { (bodyClear st false) with status := 502, handler := false }
 
+/-- a response to HEAD and a 304 have no body, whatever Content-Length / Transfer-Encoding say -/
+def bodiless (cfg : Cfg) (st : St) : Bool := cfg.head || st.status = 304
+
 /-- the backend closed before the end of the body it announced: fewer bytes than Content-Length, or
-    a chunked body without last-chunk -/
-def bodyTruncated (st : St) : Bool := st.scratch > 0 || (st.dc.isSome && st.dcDone = 0)
+    a chunked body without last-chunk (not for a response that has no body) -/
+def bodyTruncated (cfg : Cfg) (st : St) : Bool :=
+  (st.scratch > 0 || (st.dc.isSome && st.dcDone = 0)) && !bodiless cfg st
 
 /-- http_response_backend_abort(): the backend response is incomplete and the response head is
     already out: the connection cannot be reused; an HTTP/2 stream is flagged for RST_STREAM -/
@@ -539,10 +543,10 @@ def backendDone (cfg : Cfg) (st : St) : St :=
   else if st.cstate = .handle && !st.started then
     { st with status := if st.status < 500 && st.status ≠ 400 then 500 else st.status, handler := false }
   else if !st.finished then
-    if bodyTruncated st && !st.hdrSent then backendIncomplete st
+    if bodyTruncated cfg st && !st.hdrSent then backendIncomplete st
     else
       -- (head already sent: the connection cannot be reused)
-      let st1 : St := if bodyTruncated st then backendAbort cfg st else st
+      let st1 : St := if bodyTruncated cfg st then backendAbort cfg st else st
       { (if cfg.ver = 1 then chunkClose st1 else st1) with finished := true }
   else st
 
